@@ -1736,6 +1736,10 @@ func ruleKB(w *world.World, r *report.RuleResult) {
 					continue
 				}
 				if why := removes(g); why != "" {
+					// removing an entry whose deadline has passed is expiry, not an overwrite of a live key
+					if expiredAt(w, f, c) {
+						continue
+					}
 					bad = append(bad, fmt.Sprintf("%s%s at %s (%s)", chain, world.FuncName(g), w.InstrPos(c), why))
 					continue
 				}
@@ -1751,4 +1755,12 @@ func ruleKB(w *world.World, r *report.RuleResult) {
 			r.OK(key, w.Pos(fn.Pos()), "no synchronous call from the write primitive removes store entries or cache entries")
 		}
 	}
+}
+
+
+// expiredAt: the instruction is reached only over the "deadline has passed" edge of an expiry test.
+func expiredAt(w *world.World, fn *ssa.Function, in ssa.Instruction) bool {
+	ec := expiryOf(w)
+	must := world.Must(fn, ec.edgeGen(fn, nil), nil, nil)
+	return world.FactsAt(must, in, nil, nil)&factExpired != 0
 }
